@@ -388,25 +388,32 @@ def signature(p, kind, detail):
     return "%s:%s" % (kind, norm)
 
 
-def settings(ctx):
+def settings(ctx, pid="C01"):
     t = ctx.tier == "thorough"
-    return {
-        "n_mut": 40 if t else 6,
-        "gen": 0,   # (generated programs: see lib/wgen.py, enabled when present)
+    st = {
+        "n_mut": 40 if t else 3,
+        "gen": 120 if t else 6,
         "max_in": 3,
-        "max_inputs": 10 if t else 6,
-        "max_choices": 4 if t else 3,
+        "max_inputs": 10 if t else 5,
+        "max_choices": 4 if t else 2,
         "maxcalls": 3 if t else 2,
         "fuel": 400,
         "group": 6,
         "par": 4,
         "workers": 4,
     }
+    # every check explores a different cut of the same space (see DESIGN 5): C01 deeper call histories without
+    # suspension, C02 all suspension schedules, C04 one-shot export, C05 one call with every split
+    if pid == "C01":
+        st["maxcalls"] = 4 if t else 3
+    if pid == "C05":
+        st["maxcalls"] = 2 if t else 1
+    return st
 
 
 def model_check(ctx, pid, mode, schedule, invariants, fault_kinds, want_export=False, compile_c=False):
     """Common driver: returns (batch, violations, hists, stats, settings)."""
-    st = settings(ctx)
+    st = settings(ctx, pid)
     tools = build_tools(ctx)
     srcs = load_sources(ctx, st["n_mut"], include_known=True, gen=st["gen"])
     b = prepare(ctx, tools, srcs, max_in=st["max_in"], max_inputs=st["max_inputs"], max_choices=st["max_choices"])
